@@ -221,9 +221,10 @@ type poolEnv struct {
 	closeGate         chan struct{}
 	parkedClose       int
 	nowait            map[int]bool
-	hookArm           bool          // the next Transport.Call parks between getConn and the call
-	hookGate          chan struct{} // … until this is closed
-	atHook            map[int]bool  // calls parked there
+	hookArm           bool                  // the next Transport.Call parks between getConn and the call
+	hookGate          chan struct{}         // … until this is closed
+	atHook            map[int]bool          // calls parked there
+	openStreams       map[int]chan struct{} // long streams: closed by `finish`
 }
 
 func (e *poolEnv) noteCarried(k int, c *pconn) {
@@ -281,7 +282,7 @@ func (s poolScenario) header() string {
 
 func newPoolEnv(sc poolScenario) *poolEnv {
 	e := &poolEnv{up: map[string]bool{"A": true, "B": true, "C": true}, open: map[string]int{}, maxOpen: map[string]int{}, calls: map[int]*pcall{}, holdCall: map[int]bool{},
-		closeGate: make(chan struct{}), nowait: map[int]bool{}, atHook: map[int]bool{}}
+		closeGate: make(chan struct{}), nowait: map[int]bool{}, atHook: map[int]bool{}, openStreams: map[int]chan struct{}{}}
 	rpc.VerifHook = func(point string) {
 		if point != "transport.call.handed" {
 			return
@@ -334,6 +335,19 @@ func (e *poolEnv) startCall(k int, addr, form string, hold bool) {
 			if err == nil && st != nil {
 				st.Close()
 			}
+		case "lstream":
+			// a stream that stays open until `finish`: the connection is busy although no call is pending
+			var st rpc.Stream
+			st, err = e.t.NewStream(addr, "S.Stream")
+			if err == nil && st != nil {
+				e.mu.Lock()
+				gate := make(chan struct{})
+				e.openStreams[k] = gate
+				pc.carried = true
+				e.mu.Unlock()
+				<-gate
+				st.Close()
+			}
 		}
 		e.mu.Lock()
 		pc.done, pc.err, pc.reply, pc.t1 = true, err, *reply, time.Now()
@@ -375,7 +389,16 @@ func (e *poolEnv) syncTick() {
 func (e *poolEnv) finishCall(k int) bool {
 	e.mu.Lock()
 	conns := append([]*pconn(nil), e.conns...)
+	gate := e.openStreams[k]
+	delete(e.openStreams, k)
 	e.mu.Unlock()
+	if gate != nil {
+		e.mu.Lock()
+		e.holdCall[k] = false
+		e.mu.Unlock()
+		close(gate)
+		return true
+	}
 	defer func() {
 		e.mu.Lock()
 		e.holdCall[k] = false
@@ -483,7 +506,7 @@ func runPoolScenario(sc poolScenario) *poolResult {
 		switch f[0] {
 		case "idle":
 			nominal = map[string]time.Duration{"short": poolShort, "medium": poolMedium, "long": poolLong, "almost": poolAlmost, "gap": poolGap}[f[1]]
-		case "call", "go", "rt", "ping", "stream", "long", "callnb", "finish", "kill", "bounce", "hookget", "hookrel":
+		case "call", "go", "rt", "ping", "stream", "long", "lstream", "callnb", "finish", "kill", "bounce", "hookget", "hookrel":
 			nominal = 3 * poolTick // syncTick: three housekeeping periods, which the model counts too
 		}
 		switch f[0] {
@@ -493,6 +516,9 @@ func runPoolScenario(sc poolScenario) *poolResult {
 		case "long":
 			e.syncTick()
 			e.startCall(atoi(f[2]), f[1], "call", true)
+		case "lstream":
+			e.syncTick()
+			e.startCall(atoi(f[2]), f[1], "lstream", true)
 		case "hookget":
 			// a long call that is held between getConn and the call itself (the window no I/O gate bounds)
 			e.syncTick()
@@ -780,7 +806,7 @@ func checkPool(sc poolScenario, r *poolResult) []connVerdict {
 		if c.carried && c.connID >= 0 && e.conns[c.connID].addr != c.addr {
 			add("C14", "right-address", "C14/wrong-address", fmt.Sprintf("call %d for %s was sent over a connection dialed to %s", k, c.addr, e.conns[c.connID].addr))
 		}
-		if c.done && c.err == nil && c.form != "ping" && c.form != "stream" && !strings.HasPrefix(string(c.reply), c.addr+"|") {
+		if c.done && c.err == nil && c.form != "ping" && c.form != "stream" && c.form != "lstream" && !strings.HasPrefix(string(c.reply), c.addr+"|") {
 			add("C14", "right-address", "C14/wrong-server", fmt.Sprintf("call %d for %s was answered by %q", k, c.addr, string(c.reply[:min(len(c.reply), 8)])))
 		}
 	}
@@ -791,7 +817,7 @@ func checkPool(sc poolScenario, r *poolResult) []connVerdict {
 	for i, a := range r.actions {
 		f := strings.Fields(a)
 		switch f[0] {
-		case "call", "go", "rt", "ping", "long", "stream", "hookget":
+		case "call", "go", "rt", "ping", "long", "stream", "lstream", "hookget":
 			startAt[atoi(f[2])] = i
 		}
 	}
@@ -861,6 +887,9 @@ func poolCorpus() []poolScenario {
 	// D12: a housekeeping pass between getConn and the registration of the call, on a connection about to go stale
 	mk("pass-inside-the-handout-window", 1, 1, "call A 1", "idle almost", "hookget A 2", "idle gap", "hookrel 2", "idle long", "finish 2", "idle long")
 	mk("pass-inside-the-handout-window-2", 2, 2, "call A 1", "call B 2", "idle almost", "hookget A 3", "idle gap", "hookrel 3", "call B 4", "idle long", "finish 3", "call A 5", "idle long")
+	mk("open-stream-keeps-its-connection", 2, 2, "lstream A 1", "idle medium", "idle long", "closeidle", "call A 2", "finish 1", "idle long")
+	mk("close-with-several-idle", 3, 3, "long A 1", "long A 2", "long A 3", "finish 1", "finish 2", "finish 3", "idle medium", "close", "idle short")
+	mk("close-with-several-idle-2", 2, 2, "long A 1", "long A 2", "long B 3", "long B 4", "finish 1", "finish 2", "finish 3", "finish 4", "idle medium", "close")
 	mk("multi-addr", 2, 1, "call A 1", "call B 2", "call C 3", "long A 4", "long A 5", "long B 6", "kill B", "call B 7", "finish 4", "finish 5", "idle medium", "revive B", "call B 8", "call A 9", "idle long", "close", "close")
 	mk("close-gated-replacement", 1, 1, "call A 1", "kill A", "revive A", "holdclose", "callnb A 2", "callnb A 3", "relclose", "call A 4")
 	mk("forms", 2, 2, "go A 1", "rt A 2", "ping A 3", "call A 4", "kill A", "go A 5", "rt A 6", "ping A 7", "revive A", "go A 8", "rt A 9", "ping A 10", "call A 11")
